@@ -213,7 +213,7 @@ R('odak.learn.tools.convolve2d', lambda g: A(g.t(8, 8), g.t(8, 8)))
 R('odak.learn.tools.generate_2d_gaussian', lambda g: A(**g.opt(kernel_length=[9, 9], nsigma=[0, 0] if g.boundary else [g.u(1, 3), g.u(1, 3)], mu=g.lst(2), normalize=True)))
 R('odak.learn.tools.generate_2d_gaussian#zero_sigma', lambda g: A(kernel_length=[7, 7], nsigma=[0, g.u(1, 3)] if g.rng.random() < .5 else [g.u(1, 3), 0]))
 R('odak.learn.tools.generate_2d_dirac_delta', lambda g: A(**g.opt(kernel_length=[9, 9], a=[g.u(1, 3), g.u(1, 3)], mu=g.lst(2), theta=g.u(0, 1), normalize=True)))
-R('odak.learn.tools.blur_gaussian', lambda g: A(g.t(12, 12), **g.opt(kernel_length=[7, 7], nsigma=[0, 0] if g.boundary else [g.u(1, 3), g.u(1, 3)])))
+R('odak.learn.tools.blur_gaussian', lambda g: A(g.t(12, 12), **g.opt(kernel_length=[8, 6] if g.boundary else [7, 7], nsigma=[0, 0] if g.boundary else [g.u(1, 3), g.u(1, 3)])))
 R('odak.learn.tools.correlation_2d', lambda g: A(g.t(8, 8), g.t(8, 8)))
 R('odak.learn.tools.grid_sample', lambda g: A(**g.opt(no=[4, 4], size=g.lst(2, 1, 5), center=g.origin(), angles=g.angles())))
 R('odak.learn.tools.multi_scale_total_variation_loss', lambda g: A(g.img(), **g.opt(levels=2)))
@@ -364,7 +364,7 @@ M('odak.learn.perception.PSNR.forward', 'odak.learn.perception.image_quality_los
 M('odak.learn.wave.phase_gradient.forward', 'odak.learn.wave.loss.phase_gradient', lambda g: A(), 'forward', lambda g: A(g.t(1, 1, 8, 8)))
 M('odak.learn.wave.speckle_contrast.forward', 'odak.learn.wave.loss.speckle_contrast', lambda g: A(kernel_size=3), 'forward', lambda g: A(g.t(1, 1, 8, 8, lo=0.1, hi=1)))
 M('odak.learn.wave.multiplane_loss.__init__', 'odak.learn.wave.loss.multiplane_loss', None, '__init__',
-  lambda g: A(g.img(3, 16, 16, batch=False), g.t(16, 16, lo=0, hi=1), number_of_planes=2, target_blur_size=3, **g.opt(blur_ratio=0.25, weights=[1., 2.1, 0.6], multiplier=1., scheme='defocus')))
+  lambda g: A(g.img(3, 16, 16, batch=False), g.t(16, 16, lo=0, hi=1), number_of_planes=g.rng.choice([3, 4]), target_blur_size=3, **g.opt(blur_ratio=0.25, weights=[1., 2.1, 0.6], multiplier=1., scheme='defocus')))
 M('odak.learn.wave.multiplane_loss.__call__', 'odak.learn.wave.loss.multiplane_loss',
   lambda g: A(g.img(3, 16, 16, batch=False), g.t(16, 16, lo=0, hi=1), number_of_planes=2, target_blur_size=3), '__call__',
   lambda g: A(g.img(3, 16, 16, batch=False), g.img(3, 16, 16, batch=False), **g.opt(plane_id=1)))
@@ -390,3 +390,125 @@ M('odak.learn.models.channel_gate.forward', 'odak.learn.models.components.channe
 M('odak.learn.models.spatial_gate.forward', 'odak.learn.models.components.spatial_gate', lambda g: A(), 'forward', lambda g: A(g.t(1, 4, 8, 8)))
 M('odak.learn.models.convolutional_block_attention.forward', 'odak.learn.models.components.convolutional_block_attention', lambda g: A(gate_channels=4, reduction_ratio=2), 'forward', lambda g: A(g.t(1, 4, 8, 8)))
 M('odak.learn.models.positional_encoder.forward', 'odak.learn.models.components.positional_encoder', lambda g: A(L=3), 'forward', lambda g: A(g.t(5, 2)))
+
+
+# ------------------------------------------------------------------------------------------ files and assets (scratch directory)
+import os as _os, tempfile as _tempfile
+
+_SCRATCH = [None]
+
+
+def scratch():
+    """a scratch directory for the file recipes (created once per process, removed by the harness)"""
+    if _SCRATCH[0] is None or not _os.path.isdir(_SCRATCH[0]):
+        _SCRATCH[0] = _tempfile.mkdtemp(prefix='c20_scratch_')
+    return _SCRATCH[0]
+
+
+def _path(name):
+    return _os.path.join(scratch(), name)
+
+
+def _img_np(g, dtype, c=3, hi=255.):
+    """image data of the given dtype; float data spans beyond [cmin, cmax] so that clamping is visible"""
+    a = g.arr(12, 10, c, lo=-0.2 * hi, hi=1.2 * hi) if c else g.arr(12, 10, lo=-0.2 * hi, hi=1.2 * hi)
+    if np.issubdtype(dtype, np.integer):
+        a = np.clip(a, 0, hi)
+    return a.astype(dtype)
+
+
+def _png(g, name='in.png'):
+    import cv2
+    p = _path(name)
+    cv2.imwrite(p, (g.arr(12, 10, 3, lo=0, hi=255)).astype(np.uint8))
+    return p
+
+
+def _ply(g, name='in.ply'):
+    import odak.tools as ot
+    p = _path(name)
+    ot.write_PLY(g.arr(4, 3, 3), savefn=p)
+    return p
+
+
+def _txt(g, name='in.txt'):
+    p = _path(name)
+    open(p, 'w').write('first line \n\tsecond line\n\n# heading\nlast')
+    return p
+
+
+for _dt in ('float32', 'float64', 'uint8', 'uint16'):
+    R('odak.tools.save_image#%s' % _dt, (lambda dt: lambda g: A(_path('out_%s.png' % dt), _img_np(g, np.dtype(dt).type, hi=255. if dt != 'uint16' else 65535.),
+                                                               **g.opt(cmin=0, cmax=255 if dt != 'uint16' else 65535, color_depth=8 if dt != 'uint16' else 16)))(_dt))
+R('odak.tools.save_image#unit_range', lambda g: A(_path('out_unit.png'), _img_np(g, np.float32, hi=1.), cmin=0., cmax=1.))
+R('odak.tools.save_image#gray', lambda g: A(_path('out_gray.png'), _img_np(g, np.float32, c=0), **g.opt(cmin=10, cmax=200)))
+R('odak.tools.load_image', lambda g: A(_png(g), **g.opt(normalizeby=255., torch_style=g.boundary)))
+R('odak.tools.resize_image', lambda g: A(_img_np(g, np.uint8), [6, 5]))
+R('odak.tools.get_base_filename', lambda g: A('/tmp/some/dir/name.ext'))
+R('odak.tools.save_dictionary', lambda g: A({'a': g.lst(3), 'b': {'c': 'text', 'd': [1, 2]}}, _path('out.json')))
+R('odak.tools.load_dictionary', lambda g: A(_json(g)))
+R('odak.tools.list_files', lambda g: A(_os.path.dirname(_txt(g)), **g.opt(key='*.txt', recursive=False)))
+R('odak.tools.size_of_a_file', lambda g: A(_txt(g)))
+R('odak.tools.expanduser', lambda g: A('~/c20_x'))
+R('odak.tools.copy_file', lambda g: A(_txt(g), _path('copy.txt'), **g.opt(follow_symlinks=True)))
+R('odak.tools.write_to_text_file', lambda g: A(['line one', 'line two ', ''], _path('out.txt'), **g.opt(write_flag='w')))
+R('odak.tools.read_text_file', lambda g: A(_txt(g)))
+R('odak.tools.read_PLY', lambda g: A(_ply(g), **g.opt(offset=g.origin(), angles=g.angles(), mode='XYZ')))
+R('odak.tools.read_PLY_point_cloud', lambda g: A(_ply_points(g)))
+R('odak.tools.write_PLY', lambda g: A(g.arr(4, 3, 3), **g.opt(savefn=_path('out.ply'))) if g.variant != 'default' else A(g.arr(4, 3, 3), savefn=_path('out.ply')))
+R('odak.tools.write_PLY_from_points', lambda g: A(g.arr(4, 4, 3), savefn=_path('out_pts.ply')))
+
+
+def _json(g):
+    import json as _j
+    p = _path('in.json')
+    _j.dump({'a': [1, 2, 3], 'b': 'text'}, open(p, 'w'))
+    return p
+
+
+def _ply_points(g):
+    import odak.tools as ot
+    p = _path('in_pts.ply')
+    ot.write_PLY_from_points(g.arr(4, 4, 3), savefn=p)
+    return p
+
+
+def _img_t(g, dtype, c=3, hi=255.):
+    a = g.t(c, 12, 10, lo=-0.2 * hi, hi=1.2 * hi) if c else g.t(12, 10, lo=-0.2 * hi, hi=1.2 * hi)
+    return a.to(dtype)
+
+
+for _dt in ('float32', 'float64'):
+    R('odak.learn.tools.save_image#%s' % _dt, (lambda dt: lambda g: A(_path('tout_%s.png' % dt), _img_t(g, getattr(torch, dt)), **g.opt(cmin=0, cmax=255, color_depth=8)))(_dt))
+R('odak.learn.tools.save_image#unit_range', lambda g: A(_path('tout_unit.png'), _img_t(g, torch.float32, hi=1.), cmin=0., cmax=1.))
+R('odak.learn.tools.save_image#hwc', lambda g: A(_path('tout_hwc.png'), g.t(12, 10, 3, lo=-50, hi=300), **g.opt(cmin=0, cmax=255)))
+R('odak.learn.tools.load_image', lambda g: A(_png(g), **g.opt(normalizeby=255., torch_style=g.boundary)))
+R('odak.learn.tools.save_torch_tensor', lambda g: A(_path('t.pt'), g.t(3, 4)))
+R('odak.learn.tools.torch_load', lambda g: A(_pt(g), **g.opt(weights_only=True)))
+
+
+def _pt(g):
+    p = _path('in.pt')
+    torch.save(g.t(3, 4), p)
+    return p
+
+
+M('odak.tools.latex.get_line', 'odak.tools.latex.latex', lambda g: A(_txt(g, 'in.tex')), 'get_line', lambda g: A(**g.opt(line_id=1)))
+M('odak.tools.markdown.get_line', 'odak.tools.markdown.markdown', lambda g: A(_txt(g, 'in.md')), 'get_line', lambda g: A(**g.opt(line_id=1)))
+M('odak.tools.markdown.set_dictonaries', 'odak.tools.markdown.markdown', lambda g: A(_txt(g, 'in.md')), 'set_dictonaries',
+  lambda g: A(['```'], ['```'], ['#']))
+M('odak.catalog.plane_detector.raytrace', 'odak.catalog.detectors.plane_detector',
+  lambda g: A(resolution=[6, 6], shape=[4., 4.], center=[0., 0., 5.], **g.opt(angles=[0., 0., 0.])), 'raytrace',
+  lambda g: A(_rays_np(g, 4), **g.opt(field=g.carr(4), channel=0)))
+M('odak.catalog.plane_detector.__init__', 'odak.catalog.detectors.plane_detector', None, '__init__',
+  lambda g: A(**g.opt(field=g.carr(1, 6, 6), resolution=[6, 6], shape=[4., 4.], center=g.origin(), angles=g.angles())))
+M('odak.catalog.thin_diffuser.raytrace', 'odak.catalog.diffusers.thin_diffuser',
+  lambda g: A(shape=[4., 4.], center=[0., 0., 5.]), 'raytrace', lambda g: A(_rays_np(g, 2)))
+M('odak.catalog.thin_diffuser.__init__', 'odak.catalog.diffusers.thin_diffuser', None, '__init__',
+  lambda g: A(**g.opt(shape=[4., 4.], center=g.origin(), angles=g.angles(), diffusion_angle=5., diffusion_no=[2, 2])))
+M('odak.catalog.plano_convex_lens.__init__', 'odak.catalog.lenses.plano_convex_lens', None, '__init__',
+  lambda g: A(**g.opt(item='LA1024', location=g.origin(), rotation=g.angles())))
+M('odak.learn.raytracing.detector.__init__', 'odak.learn.raytracing.detector.detector', None, '__init__',
+  lambda g: A(colors=1, **g.opt(center=g.t(3), tilt=torch.tensor(g.angles()), size=torch.tensor([4., 4.]), resolution=torch.tensor([8, 8]))))
+M('odak.learn.raytracing.planar_mesh.mirror', 'odak.learn.raytracing.mesh.planar_mesh',
+  lambda g: A(size=torch.tensor([4., 4.]), number_of_meshes=torch.tensor([2, 2]), offset=torch.tensor([0., 0., 5.])), 'mirror', lambda g: A(_ray_t(g, 3)))
